@@ -39,6 +39,10 @@ Definition expected_impl_t (by_value : bool) : toks :=
 
 Definition first_param_toks (g : generics) : toks :=
   match p_items (g_params g) with p :: _ => print_gparam p | [] => [] end.
+(** the first generic parameter that is not a lifetime (the impl of an entraited trait declares the trait's
+    lifetimes before the application's type parameter) *)
+Definition app_param_toks (g : generics) : toks :=
+  match filter (fun p => negb (is_life p)) (p_items (g_params g)) with p :: _ => print_gparam p | [] => [] end.
 Definition first_where_toks (g : generics) : toks :=
   match g_where g with Some p => match p_items p with w :: _ => wp_toks w | [] => [] end | None => [] end.
 
@@ -160,7 +164,7 @@ Definition view_C06_gen (want_target : bool) (c : ctx) (items : list item) : vie
           if Bool.eqb (is_some (ta_impl_trait a)) want_target then
             let ca := has_async (map snd (trait_sigs t)) in
             decided (toks_eqb (i_self im) impl_path_toks &&
-                     toks_eqb (first_param_toks (i_gen im)) (expected_impl_t false) &&
+                     toks_eqb (app_param_toks (i_gen im)) (expected_impl_t false) &&
                      toks_eqb (first_where_toks (i_gen im)) (c06_bound a ca (t_name t) (t_gen t)) &&
                      toks_eqb (match i_trait im with Some x => x | None => [] end) ([TId (t_name t)] ++ trait_args (t_gen t)) &&
                      only_impl_fns im && c06_methods a ca (trait_sigs t) (impl_fns im))
@@ -308,7 +312,7 @@ Definition generated_regions (p : gen_parts) : list toks :=
   | GFn _ tr im | GMod _ _ _ _ tr im _ _ =>
       [first_param_toks (i_gen im); i_self im] ++ map (fun '(_, _, b) => b) (impl_fns im) ++ t_attrs tr
   | GTrait tr ds im =>
-      [first_param_toks (i_gen im); i_self im; first_where_toks (i_gen im)] ++ map (fun '(_, _, b) => b) (impl_fns im) ++
+      [app_param_toks (i_gen im); i_self im; first_where_toks (i_gen im)] ++ map (fun '(_, _, b) => b) (impl_fns im) ++
       filter is_mock_attr (t_attrs tr)
   | GImpl _ im =>
       [first_param_toks (i_gen im)] ++ map (fun '(_, _, b) => b) (impl_fns im)
@@ -427,7 +431,7 @@ Definition view_C19 (c : ctx) (items : list item) : view :=
       | Some a =>
           let users := [t_name t] ++ (match ta_impl_trait a with Some n => [n] | None => [] end) ++
                        (match ta_delegate a with Some (ByTrait d) => [d] | _ => [] end) in
-          let p := first_param_toks (i_gen im) in
+          let p := app_param_toks (i_gen im) in
           let w := first_where_toks (i_gen im) in
           decided (c19_bounds_ok [] p && c19_fixed_bounds p && c19_bounds_ok users w) [p; w]
       | None => na
